@@ -2,7 +2,7 @@
 import itertools, math
 from fractions import Fraction
 from .. import core, chargen, wlgen
-from ..spgref import Recipe, f32_from_bits
+from ..spgref import Recipe, f32_from_bits, ulp32
 from .c05 import title_map
 from .c04 import expected_tokens, CELLS as WL_CELLS
 from .c02 import CELLS as CHAR_CELLS
@@ -108,6 +108,8 @@ EXTRA_WL_CELLS = [
     (["Polish", "alpha", "beta"], 2, ("char", "-"), "random"),          # pre-capitalised word: min-entropy, no bonus
     (["正確", "one", "two"], 2, ("char", " "), "one"),                    # caseless word: no bonus
     (["4", "5"], 3, ("preset", "SFDigits1"), "random"),
+    (["'tis", "o'neil", "x"], 2, ("char", "-"), "random"),            # every word changes under strings.Title, one only after an apostrophe
+    (["4-wheel", "jean-luc"], 2, ("char", " "), "one"),                 # ... one only in a later segment
 ]
 
 
@@ -121,6 +123,25 @@ def oracle(ctx, deep):
         wl_cell(ctx, l, L, sep, cap)
     wl_cell(ctx, ["4", "5"], 3, ("preset", "SFDigits1"), "none", shadow="-")     # both separator fields set: the function is used
     wl_cell(ctx, ["", "a"], 3, ("char", ""), "none")          # open finding F7
+    # Entropy() against an independent exact count: never more than log2 of the number of satisfying strings
+    for meta, a, b in getattr(ctx, "recipe_results", []):
+        if not a or a.startswith("panic"):
+            continue
+        r = meta["_recipe"]
+        if r.length < 1 or not r.alphabet() or len(r.live_families()) > 10:
+            continue
+        ent = kv(a).get("ent", "")
+        if not ent.startswith("F:"):
+            continue
+        got = f32_from_bits(ent[2:])
+        cnt = r.count()
+        if cnt <= 0:
+            continue
+        want = math.log2(cnt)
+        if math.isnan(got) or got > want + 4 * ulp32(max(want, 1.0)):
+            ctx.violations.append({"finding_key": "C06-char", "recipe": meta["recipe"], "line": "recipe " + r.tokens(), "observed": a[:200],
+                                   "what": "Entropy() = %r overstates: there are exactly %d satisfying strings, log2 = %r" % (got, cnt if cnt < 10 ** 30 else -1, want)})
+            break
     # Password.Entropy is the recipe's Entropy()
     rec_ent = {}
     for meta, a, b in getattr(ctx, "recipe_results", []):
